@@ -177,6 +177,10 @@ def streams(ctx):
          ("F-C04-6", "npm", '{"dependencies":{"\\u00e9-pkg":"1.0.0"}}', [("é-pkg", "1.0.0", None)]),
          ("F-C04-7", "crates", "[target.'cfg(unix)'.dependencies]\nlibc = \"0.2.0\"\n", [("libc", "0.2.0", None)]),
          ("F-C04-8", "crates", "[dependencies.serde]\nversion = \"1.0.0\"\n", [("serde", "1.0.0", None)]),
+         ("F-C04-8", "crates", "[dependencies.mine]\npath = \"../mine\"\nversion = \"0.1.0\"\n\n[dev-dependencies.al]\npackage = \"real\"\nversion = '2.0.0'\n\n"
+                               "[target.'cfg(unix)'.build-dependencies.libc]\nversion = \"0.2.0\"\n\n[dependencies.ws]\nworkspace = true\n\n[package.metadata.dependencies.q]\nversion = \"9.0.0\"\n",
+          [("real", "2.0.0", None), ("libc", "0.2.0", None)]),
+         ("F-C04-11", "crates", "[target.dependencies]\nanyhow = \"1.0.0\"\n", []),
          ("F-C04-10", "gha", "jobs:\n  b:\n    steps:\n      - { uses: actions/checkout@v4 }\n", [("actions/checkout", "v4", None)]),
          ("F-C04-1", "npm", '{"dependencies":{"a":"workspace:*","b":"file:../x","c":"git+https://github.com/a/b.git#v1","d":"1.0.0"}}', [("d", "1.0.0", None)]),
          ("F-C04-2", "jsr", '{"imports":{"x":"jsr:@luca/flag@^1.0.1/sub/mod.ts"}}', [("@luca/flag", "^1.0.1", None)]),
